@@ -320,6 +320,22 @@ class Rewriter:
                     + text[k + 1:])
             self._fire('while_decl')
 
+    def _strip_log(self, t):
+        # YACLIB_DEBUG / WARN / INFO(cond, message); : logging only, removed (arbitrary nesting of parentheses)
+        pat = re.compile(r'\bYACLIB_(?:DEBUG|WARN|INFO)\s*\(')
+        while True:
+            m = pat.search(t)
+            if not m:
+                return t
+            close = match_brace(t, m.end() - 1)
+            k = close + 1
+            while k < len(t) and t[k].isspace():
+                k += 1
+            if k < len(t) and t[k] == ';':
+                k += 1
+            t = t[:m.start()] + ';' + t[k:]
+            self._fire('debug')
+
     # -- driver --------------------------------------------------------------------------
     def rewrite(self, body):
         t = body
@@ -335,7 +351,7 @@ class Rewriter:
         t = self._sub('constexpr', r'\b(static\s+)?constexpr\b', 'const', t)
         t = self._sub('template_kw', r'(->|\.|::)\s*template\s+', r'\1', t)
         t = self._sub('typename', r'\btypename\s+', '', t)
-        t = self._sub('debug', r'\bYACLIB_(DEBUG|WARN|INFO)\s*\((?:[^()]|\([^()]*\))*\)\s*;', ';', t)
+        t = self._strip_log(t)
         t = self._sub('ignore', r'\bstd::ignore\s*=', '(void)', t)
         t = self._sub('mo', r'\bstd::memory_order(?:_|::)(' + '|'.join(MO) + r')\b', r'mo_\1', t)
         t = self._while_decl(t)
